@@ -11,7 +11,7 @@
    run, the tree and every merge are compared bit-exactly between the executable binary32 model and the
    implementation (DESIGN C12). *)
 From Coq Require Import ZArith List Bool Lia.
-From KV Require Import Base Weave WeaveProofs WeaveCheck AssemblyProofs DupProofs Kernels Pipeline ExactDiag ExactDiagInst ExactDiagProf ExactDiagRun.
+From KV Require Import Base Weave WeaveProofs WeaveCheck AssemblyProofs DupProofs Kernels Pipeline ExactDiag ExactDiagInst ExactDiagProf ExactDiagRun CladeTasks.
 Import ListNotations.
 Local Open Scope nat_scope.
 
@@ -52,6 +52,27 @@ Theorem C12_clade_of_copies_exact :
   Forall (fun e => cp (snd (fst (fst (fst e)))) = true -> diag_entry unit x e) out.
 Proof. intros unit Hu S gpo gpe tgpe gam dim mx Hok Hd x Hx HL cp. exact (run_tasks_clade unit Hu S gpo gpe tgpe gam dim mx Hok Hd x Hx HL cp). Qed.
 Print Assumptions C12_clade_of_copies_exact.
+
+(* ... and this is the shape every guide tree gives: for ANY input set, ANY guide tree (labelled by label_internal,
+   whose labels are distinct - C12_labels_are_distinct) and ANY subtree s whose leaves are copies of x, the task list of
+   the tree (sorted by label as sort_tasks does) keeps the merges of s inside s, so they are diagonal and all-match: the
+   copies leave the clade as one group with equal rows, and C12_equal_rows_of_a_group_stay_equal takes over. *)
+Theorem C12_clade_of_copies_in_any_guide_tree_exact :
+  forall (unit : Z) (S : list (list Z)) (gpo gpe tgpe gam : Z) (dim : nat) (mx : Z),
+  (0 <= unit)%Z -> scheme_ok unit S gpo gpe tgpe gam dim mx = true -> (dim <= 23)%nat ->
+  forall x : list Z, Forall (fun c => inr dim c = true) x -> (1 <= length x)%nat ->
+  forall (codes : list (list Z)) (t s : ltree) out,
+  NoDup (ids t) -> subtree s t ->
+  (forall i, In i (ids s) -> (i < length codes)%nat -> nth i codes [] = x) ->
+  progressive (AX unit) (PX unit S gpo gpe tgpe) codes (sort_tasks (tasks_of t)) = Some out ->
+  Forall (fun e => marks s (snd (fst (fst (fst e)))) = true -> diag_entry unit x e) out.
+Proof. intros unit S gpo gpe tgpe gam dim mx Hu Hok Hd x Hx HL. exact (clade_in_tree unit S gpo gpe tgpe gam dim mx Hu Hok Hd x Hx HL). Qed.
+Print Assumptions C12_clade_of_copies_in_any_guide_tree_exact.
+
+Theorem C12_labels_are_distinct : forall (t : utree) (n : nat),
+  NoDup (leaves t) -> (forall i, In i (leaves t) -> (i < n)%nat) -> NoDup (ids (fst (label t n))).
+Proof. exact label_nodup. Qed.
+Print Assumptions C12_labels_are_distinct.
 
 (* Non-vacuity, evaluated in exact arithmetic under a nucleotide scheme written out here (match 5, mismatch -4, gap
    open 8, extension 6, terminal 0, scaled by 2000; unit 1): the scheme passes the check; sequences 1, 2 and 4 are copies
